@@ -170,6 +170,8 @@ def r2(ctx, F, eff):
             for ai, a in enumerate(t['args']):
                 if a['k'] == 'const':
                     continue
+                if ai == 0 and c.endswith('fs::copy'):
+                    continue        # the file that is read
                 ty = body.local_ty(a['p']['l']).replace('&', '').replace('mut ', '').strip()
                 if ty not in ('std::path::Path', 'std::path::PathBuf'):
                     continue
@@ -268,6 +270,15 @@ def root_of(F, body, o, depth=0):
         return out
     if o.kind in ('const', 'comb'):
         return set()
+    if o.kind == 'agg':
+        return set()        # a wrapper (a struct holding the path, Some(path)): its operands are origins of their own
+    if o.kind == 'call' and o.bb is not None and str(o.key).split('::')[-1] in ('to_path_buf', 'to_owned', 'clone', 'as_ref', 'as_path', 'deref', 'borrow', 'into', 'from', 'as_deref'):
+        out = set()
+        args_ = body.blocks[o.bb]['term'].get('args', [])
+        if args_ and args_[0]['k'] != 'const':
+            for pb, x in capture_origins(F, body, args_[0]):
+                out |= root_of(F, pb, x, depth + 1)
+            return out
     return {'?:%s' % o.key}
 
 
